@@ -157,6 +157,64 @@ __CPROVER_assigns(__CPROVER_object_upto(pdu, 3248), rtr_socket->version, rtr_soc
 		  __CPROVER_object_whole(&g_env), g_sc.pos);
 #endif
 
+#ifdef STORE_CHOICE
+/* Variant "which table receives the records" (C06): the buffering and the apply / undo functions are replaced by
+ * their contracts in CLIENT reading (their bodies are verified in units/apply.c): buffering appends one PDU or
+ * fails without change; apply / undo return any of their result codes and record which table they were handed.
+ * What remains of rtr_sync_receive_and_store_pdus is the REAL control flow: receive loop, End-of-Data handling,
+ * shadow-table set-up, the choice of the update tables, the apply loops with their roll-back, swap and clean-up. */
+struct choice_ghost {
+	bool live_pfx, live_key; /* an apply / undo call was handed the socket's LIVE table */
+	bool other_pfx, other_key; /* ... a table that is not the live one */
+	unsigned int applies;
+};
+static struct choice_ghost g_ch;
+static struct pdu_ipv4 g_buf4[2];
+static struct pdu_ipv6 g_buf6[2];
+static struct pdu_router_key g_bufk[2];
+
+static int rtr_store_prefix_pdu__choice(struct rtr_socket *rtr_socket, const void *pdu, const unsigned int pdu_size, void **ary, unsigned int *ind, unsigned int *size)
+__CPROVER_requires(__CPROVER_rw_ok(ary, sizeof(*ary)) && __CPROVER_rw_ok(ind, sizeof(*ind)) && __CPROVER_rw_ok(size, sizeof(*size)) && *ind < 2)
+__CPROVER_requires(pdu_size == sizeof(struct pdu_ipv4) || pdu_size == sizeof(struct pdu_ipv6))
+__CPROVER_ensures(__CPROVER_return_value == RTR_SUCCESS || __CPROVER_return_value == RTR_ERROR)
+__CPROVER_ensures(__CPROVER_return_value == RTR_SUCCESS
+			  ? (*ind == __CPROVER_old(*ind) + 1 && *ary == (pdu_size == sizeof(struct pdu_ipv4) ? (void *)g_buf4 : (void *)g_buf6))
+			  : (*ind == __CPROVER_old(*ind) && *ary == __CPROVER_old(*ary) && *size == __CPROVER_old(*size)))
+__CPROVER_assigns(*ary, *ind, *size);
+
+static int rtr_store_router_key_pdu__choice(struct rtr_socket *rtr_socket, const void *pdu, const unsigned int pdu_size, struct pdu_router_key **ary, unsigned int *ind, unsigned int *size)
+__CPROVER_requires(__CPROVER_rw_ok(ary, sizeof(*ary)) && __CPROVER_rw_ok(ind, sizeof(*ind)) && __CPROVER_rw_ok(size, sizeof(*size)) && *ind < 2)
+__CPROVER_ensures(__CPROVER_return_value == RTR_SUCCESS || __CPROVER_return_value == RTR_ERROR)
+__CPROVER_ensures(__CPROVER_return_value == RTR_SUCCESS ? (*ind == __CPROVER_old(*ind) + 1 && *ary == g_bufk)
+							: (*ind == __CPROVER_old(*ind) && *ary == __CPROVER_old(*ary) && *size == __CPROVER_old(*size)))
+__CPROVER_assigns(*ary, *ind, *size);
+
+#define CHOICE_PFX(t)                                                                                                   \
+	(g_ch.live_pfx == (__CPROVER_old(g_ch.live_pfx) || (t) == &g_ptab) && g_ch.other_pfx == (__CPROVER_old(g_ch.other_pfx) || (t) != &g_ptab) && \
+	 g_ch.applies == __CPROVER_old(g_ch.applies) + 1)
+#define CHOICE_KEY(t)                                                                                                   \
+	(g_ch.live_key == (__CPROVER_old(g_ch.live_key) || (t) == &g_ktab) && g_ch.other_key == (__CPROVER_old(g_ch.other_key) || (t) != &g_ktab) && \
+	 g_ch.applies == __CPROVER_old(g_ch.applies) + 1)
+static int rtr_update_pfx_table__choice(struct rtr_socket *rtr_socket, struct pfx_table *pfx_table, const void *pdu)
+__CPROVER_requires(g_ch.applies < 1000)
+__CPROVER_ensures((__CPROVER_return_value == PFX_SUCCESS || __CPROVER_return_value == PFX_ERROR) && CHOICE_PFX(pfx_table))
+__CPROVER_assigns(g_ch.live_pfx, g_ch.other_pfx, g_ch.applies);
+static int rtr_undo_update_pfx_table__choice(struct rtr_socket *rtr_socket, struct pfx_table *pfx_table, void *pdu)
+__CPROVER_requires(g_ch.applies < 1000)
+__CPROVER_ensures((__CPROVER_return_value == PFX_SUCCESS || __CPROVER_return_value == PFX_ERROR || __CPROVER_return_value == PFX_DUPLICATE_RECORD ||
+		   __CPROVER_return_value == PFX_RECORD_NOT_FOUND) && CHOICE_PFX(pfx_table))
+__CPROVER_assigns(g_ch.live_pfx, g_ch.other_pfx, g_ch.applies);
+static int rtr_update_spki_table__choice(struct rtr_socket *rtr_socket, struct spki_table *spki_table, const void *pdu)
+__CPROVER_requires(g_ch.applies < 1000)
+__CPROVER_ensures((__CPROVER_return_value == SPKI_SUCCESS || __CPROVER_return_value == SPKI_ERROR) && CHOICE_KEY(spki_table))
+__CPROVER_assigns(g_ch.live_key, g_ch.other_key, g_ch.applies);
+static int rtr_undo_update_spki_table__choice(struct rtr_socket *rtr_socket, struct spki_table *spki_table, void *pdu)
+__CPROVER_requires(g_ch.applies < 1000)
+__CPROVER_ensures((__CPROVER_return_value == SPKI_SUCCESS || __CPROVER_return_value == SPKI_ERROR || __CPROVER_return_value == SPKI_DUPLICATE_RECORD ||
+		   __CPROVER_return_value == SPKI_RECORD_NOT_FOUND) && CHOICE_KEY(spki_table))
+__CPROVER_assigns(g_ch.live_key, g_ch.other_key, g_ch.applies);
+#endif
+
 /* record a prefix PDU of the script describes (independent of rtr_prefix_pdu_2_pfx_record) */
 static struct pfx_record rec_of(const struct sentry *e)
 {
@@ -238,6 +296,10 @@ void h_store(void)
 		if (k < STORE_N) {
 			e.ret = 0;
 			e.type = g_shape[k];
+#ifdef STORE_CHOICE
+			/* any payload PDU type at this position */
+			e.type = VND_BOOL() ? SPEC_PDU_IPV4 : VND_BOOL() ? SPEC_PDU_IPV6 : SPEC_PDU_ROUTER_KEY;
+#endif
 			if (e.type == SPEC_PDU_ROUTER_KEY)
 				nkeys++;
 		} else {
@@ -391,7 +453,33 @@ void h_store(void)
 		if (k < term && g_sc.e[k].ret == 0 && g_sc.e[k].type == SPEC_PDU_ROUTER_KEY && g_sc.e[k].flags > 1)
 			key_flags_ok = false;
 
+#ifdef STORE_CHOICE
+	struct choice_ghost zc = {0};
+
+	g_ch = zc;
+#endif
 	int r = rtr_sync_receive_and_store_pdus(&g_sock);
+
+#ifdef STORE_CHOICE
+	/* ---- C06: which table receives the records */
+	CHECK(!g_gt.bad_table, "table operations address the socket's live tables or the shadow tables only");
+	if (g_pre.is_resetting) {
+		CHECK(!g_ch.live_pfx && !g_ch.live_key, "C06 during a reload every prefix and every router key is applied to (and rolled back from) the shadow tables, never the live ones");
+		CHECK(!g_gt.live_mutated_before_swap, "C06 during a reload no record is added to or removed from the live tables before the swap");
+		CHECK(r != 0 || (g_gt.pfx_swaps == 1 && g_gt.spki_swaps == 1), "C06 a successful reload swaps each table exactly once");
+		CHECK(g_gt.shadow_frees == g_gt.shadow_inits && g_gt.kshadow_frees == g_gt.kshadow_inits, "C18 every shadow table that was set up is released");
+	} else {
+		CHECK(!g_ch.other_pfx && !g_ch.other_key, "C06 outside a reload the records are applied to the live tables");
+		CHECK(g_gt.pfx_swaps == 0 && g_gt.spki_swaps == 0 && g_gt.shadow_inits == 0, "C06 no shadow table outside a reload");
+	}
+	if (r == 0 && g_pre.is_resetting && g_ch.applies == 1)
+		CANARY("successful reload with one record reachable");
+	if (r == 0 && !g_pre.is_resetting && g_ch.applies == 1)
+		CANARY("successful delta with one record reachable");
+	if (r == -1 && g_ch.applies == 1)
+		CANARY("failed apply reachable");
+	return;
+#endif
 
 	/* ---- unit sanity */
 	CHECK(!g_gt.bad_table, "table operations address the socket's live tables or the shadow tables only");
